@@ -218,7 +218,7 @@ func ruleStaleAnswered(c *Ctx) {
 	rpc := P.Method("server", "Server", "RegionHeartbeat")
 	handle := F(P.Method("server/cluster", "RaftCluster", "HandleRegionHeartbeat"))
 	sendErr := F(P.Method("server/schedule/hbstream", "HeartbeatStreams", "SendErr"))
-	failed := &failEv{okEv: newOkEv(rpc, "HandleRegionHeartbeat failed", callMatcher(handle))}
+	failed := newSettledEv(rpc, "HandleRegionHeartbeat", callMatcher(handle))
 	sent := &calledEv{name: "SendErr", match: instrCallMatcher(sendErr), reset: instrCallMatcher(handle)}
 	// at the next Recv (loop back-edge) after a failure, an error must have been sent
 	recv := func(x ssa.Instruction) bool {
@@ -232,11 +232,11 @@ func ruleStaleAnswered(c *Ctx) {
 		f := ci.Common().StaticCallee()
 		return f != nil && f.Name() == "Recv"
 	}
-	c.need(rule, rpc, "next Recv", recv, []Ev{failed, sent}, func(h []bool) bool { return !h[0] || h[1] }, "a heartbeat rejected by the cluster is answered with an error message")
+	c.need(rule, rpc, "next Recv", recv, []Ev{failed, sent}, anyOf, "a heartbeat rejected by the cluster is answered with an error message")
 	// HandleRegionHeartbeat propagates processRegionHeartbeat's error
 	h := P.Method("server/cluster", "RaftCluster", "HandleRegionHeartbeat")
-	f2 := &failEv{okEv: newOkEv(h, "processRegionHeartbeat failed", callMatcher(F(hb)))}
-	c.need(rule, h, "successful return", func(x ssa.Instruction) bool { r, ok := x.(*ssa.Return); return ok && retIsNilErr(r) }, []Ev{f2}, func(hh []bool) bool { return !hh[0] }, "the staleness error is propagated")
+	f2 := newSettledEv(h, "processRegionHeartbeat", callMatcher(F(hb)))
+	c.need(rule, h, "successful return", func(x ssa.Instruction) bool { r, ok := x.(*ssa.Return); return ok && retIsNilErr(r) }, []Ev{f2}, all, "the staleness error is propagated")
 }
 
 func init() {
